@@ -6,6 +6,7 @@ package sourceaddrs
 // comments only; it is compiled only with the "verif" build tag.
 
 //@ closed github.com/hashicorp/go-slug/sourceaddrs.Source: sourceaddrs.LocalSource, sourceaddrs.RegistrySource, sourceaddrs.RemoteSource
+//@ closed github.com/hashicorp/go-slug/sourceaddrs.remoteSourceType: sourceaddrs.gitSourceType, sourceaddrs.httpSourceType
 //@ closed github.com/hashicorp/go-slug/sourceaddrs.FinalSource: sourceaddrs.LocalSource, sourceaddrs.RegistrySourceFinal, sourceaddrs.RemoteSource
 
 //@ func normalizeSubpath -> (r, err)
@@ -111,46 +112,78 @@ package sourceaddrs
 //@   ensures-bounded splitBounded C19,C06.split.idem: !spHasSub(pkg)
 
 //@ func ParseSource -> (r, err)
+//@   pure
 //@   sweep
 
 //@ func ParseFinalSource -> (r, err)
+//@   pure
 //@   sweep
 
 //@ func ParseRemoteSource -> (r, err)
+//@   pure
 //@   sweep
+//@   ensures C07.Parse.policy: err == nil ==> remotePolicy(r) && normSub(r.subPath)
+//@   ensures C07.Parse.nouser: err == nil ==> r.pkg.url.User == nil
 //@   assume pat.remote: numSubexp(remoteSourceTypePattern) == 2
 
 //@ func ParseRegistrySource -> (r, err)
+//@   pure
 //@   sweep
 
 //@ func ParseFinalRegistrySource -> (r, err)
+//@   pure
 //@   sweep
 //@   assume pat.final: numSubexp(finalRegistrySourcePattern) == 4
 
 //@ func looksLikeFinalRegistrySource -> (r)
+//@   pure
 //@   sweep
 //@   assume pat.final: numSubexp(finalRegistrySourcePattern) == 4
 
+//@ macro remotePolicy(R): (R.pkg.sourceType == "git" || R.pkg.sourceType == "http" || R.pkg.sourceType == "https")
+//@     && (R.pkg.sourceType == "git" ==> R.pkg.url.Scheme == "ssh" || R.pkg.url.Scheme == "https")
+//@     && (R.pkg.sourceType != "git" ==> R.pkg.url.Scheme == "https")
 //@ func makeRemoteSource -> (r, err)
+//@   modifies u
 //@   sweep
 //@   requires C19.u: u != nil
+//@   ensures C07.make.policy: err == nil ==> remotePolicy(r) && r.pkg.sourceType == sourceType && r.subPath == subPath && r.pkg.url.User == old(u.User)
+//@   assume init.types: typeTableOK(sourceType)
 
 //@ func MakeRemoteSource -> (r, err)
+//@   pure
+//@   replay makeRemote:
 //@   sweep
 //@   requires pre.u: u != nil
+//@   ensures C07.Make.policy: err == nil ==> remotePolicy(r) && normSub(r.subPath)
+//@   ensures C07.Make.nouser: err == nil ==> r.pkg.url.User == nil
 
 //@ func (gitSourceType).PrepareURL -> (err)
+//@   modifies u
 //@   sweep
 //@   requires pre.u: u != nil
+//@   watch 1: anyKey
+//@   invariant loop1 C07.git.query.inv: $seen1 ==> anyKey == "ref" && len(qs[anyKey]) <= 1
+//@   ensures C07.git.scheme: err == nil ==> u.Scheme == "ssh" || u.Scheme == "https"
+//@   ensures C07.git.query: err == nil ==> (mapHas(asType(queryMap(u.RawQuery), "net/url.Values"), anyKey) ==> anyKey == "ref" && len(asType(queryMap(u.RawQuery), "net/url.Values")[anyKey]) <= 1)
+//@   ensures C07.git.unchanged: u.Scheme == old(u.Scheme) && u.User == old(u.User) && u.RawQuery == old(u.RawQuery)
 
 //@ func (httpSourceType).PrepareURL -> (err)
+//@   modifies u
 //@   sweep
 //@   requires pre.u: u != nil
+//@   ensures C07.https.scheme: err == nil ==> u.Scheme == "https"
+//@   ensures C07.https.checksum: err == nil ==> len(qs["checksum"]) == 0
+//@   ensures C07.https.archive: err == nil ==> (len(qs["archive"]) == 0 ==> hasSuffix(escapedPath(u.Path, u.RawPath), ".tar.gz") || hasSuffix(escapedPath(u.Path, u.RawPath), ".tgz"))
+//@       && (len(qs["archive"]) > 0 ==> len(qs["archive"]) == 1 && qs["archive"][0] == "tgz")
+//@   ensures C07.https.unchanged: u.Scheme == old(u.Scheme) && u.User == old(u.User)
 
 //@ func init$1 -> (normed, ok, err)
+//@   pure
 //@   sweep
 
 //@ func init$2 -> (normed, ok, err)
+//@   pure
 //@   sweep
 
 //@ func (RemoteSource).String -> (r)
@@ -168,9 +201,21 @@ package sourceaddrs
 //@ func (RegistrySourceFinal).String -> (r)
 //@   sweep
 //@ func ParseRemotePackage -> (r, err)
+//@   pure
 //@   sweep
+//@   ensures C07.ParsePkg.policy: err == nil ==> (r.sourceType == "git" || r.sourceType == "http" || r.sourceType == "https")
+//@       && (r.sourceType == "git" ==> r.url.Scheme == "ssh" || r.url.Scheme == "https") && (r.sourceType != "git" ==> r.url.Scheme == "https") && r.url.User == nil
 //@ func ParseRegistryPackage -> (r, err)
+//@   pure
 //@   sweep
 //@ func ValidSubPath -> (r)
+//@   pure
 //@   sweep
 //@   ensures C19,C18.validsub.spec: r == ValidSubPathSpec(s)
+
+// The table of remote source types is built by the package initialiser and never modified afterwards.
+//@ macro typeTableOK(K): (mapHas(remoteSourceTypes, K) == (K == "git" || K == "http" || K == "https"))
+//@     && (K == "git" ==> dyntype(remoteSourceTypes[K], "sourceaddrs.gitSourceType"))
+//@     && ((K == "http" || K == "https") ==> dyntype(remoteSourceTypes[K], "sourceaddrs.httpSourceType"))
+//@ func init
+//@   ensures C07,C19.init.types: typeTableOK(anyKey)
